@@ -5,6 +5,7 @@ import (
 	"io"
 	"math/rand/v2"
 	"net"
+	"strings"
 	"time"
 
 	"github.com/cbeuw/Cloak/internal/server"
@@ -35,6 +36,8 @@ type C15Client struct {
 	// hello, so the server's reply cannot be written; the client then connects
 	// again with the same session id
 	LostReply bool `json:"lost_reply,omitempty"`
+	// CDN: the client uses the WebSocket transport through the CDN edge
+	CDN bool `json:"cdn,omitempty"`
 }
 
 type C15Scenario struct {
@@ -88,6 +91,14 @@ func genC15(g *Gen) any {
 			sc.Clients[g.Rng.IntN(min(n, 4))].LostReply = true
 		}
 	}
+	if g.Bool(0.3) {
+		// some or all of the burst arrives over the WebSocket transport
+		for i := range sc.Clients {
+			if g.Bool(0.7) {
+				sc.Clients[i].CDN, sc.Clients[i].LostReply = true, false
+			}
+		}
+	}
 	return sc
 }
 
@@ -113,6 +124,12 @@ func runC15(c *Ctx, scAny any) {
 		}
 	}
 	simsync.Go("h:serve", func() { server.Serve(w.Front, w.Sta) })
+	for _, cl := range sc.Clients {
+		if cl.CDN {
+			NewEdgeStub(c)
+			break
+		}
+	}
 	simsync.Go("h:upstream", func() {
 		for {
 			uc, err := w.Upstream["shadowsocks"].Accept()
@@ -145,6 +162,9 @@ func runC15(c *Ctx, scAny any) {
 			defer func() { res.done = true }()
 		}
 		cp := ClientParams{UID: uids[user], Method: "shadowsocks", Encryption: "aes-gcm", Browser: browser, Transport: "direct", NumConn: 1, SessionID: sid, SkewMS: sc.SrvSkewMS}
+		if strings.HasPrefix(ip, "cdn:") {
+			ip, cp.Transport = ip[4:], "CDN"
+		}
 		_, remote, auth, err := w.ClientConfig(cp, rng)
 		if err != nil {
 			res.err = err
@@ -152,7 +172,7 @@ func runC15(c *Ctx, scAny any) {
 			return
 		}
 		d := &simnet.Dialer{Net: c.Net, LocalIP: ip}
-		conn, err := d.Dial("tcp", srvAddr)
+		conn, err := d.Dial("tcp", remote.RemoteAddr)
 		if err != nil {
 			res.err = err
 			res.done = true
@@ -183,6 +203,12 @@ func runC15(c *Ctx, scAny any) {
 		tr := remote.Transport.CreateTransport()
 		res.key, res.err = tr.Handshake(conn, auth)
 		conn.SetDeadline(time.Time{})
+		if res.err != nil {
+			c.Probe("handshake_failed:" + cp.Transport)
+			c.Logf("handshake (%s) failed: %v", cp.Transport, res.err)
+		} else {
+			c.Probe("handshake_ok:" + cp.Transport)
+		}
 	}
 	// authorised at the moment of connecting?
 	// at the time of the burst: 1 authorised, -1 not authorised, 0 too close to the expiry instant to say
@@ -271,8 +297,12 @@ func runC15(c *Ctx, scAny any) {
 	for i, cl := range sc.Clients {
 		i, cl := i, cl
 		results[i] = &c15Result{}
+		ip := fmt.Sprintf("10.0.2.%d", i+1)
+		if cl.CDN {
+			ip = "cdn:" + ip
+		}
 		simsync.Go("h:client", func() {
-			handshake(cl.User, cl.Session, cl.Browser, fmt.Sprintf("10.0.2.%d", i+1), results[i], cl.LostReply)
+			handshake(cl.User, cl.Session, cl.Browser, ip, results[i], cl.LostReply)
 		})
 	}
 	end := c.Drive(func() bool {
